@@ -1,8 +1,10 @@
 (* C16 - property theorems only.  Each is closed by `exact <lemma>` and followed by Print Assumptions.
 
    Vocabulary (Model.v / ProofsSafe.v / ProofsMain.v):
-   - `reach fx s k D`: IPSets state s, kernel k and desired sets D (set id -> metadata, members) are reachable from
-     the initial state by ANY sequence of API calls, ApplyUpdates / ApplyDeletions runs with ANY choices the code can
+   - `reach fx s k D`: IPSets state s, kernel k and desired sets D (set id -> metadata, members; D = the sets asked
+     for that are NEEDED under the current SetFilter filter, `eff A F`) are reachable from
+     the initial state by ANY sequence of API calls (AddOrReplaceIPSet, AddMembers, RemoveMembers, RemoveIPSet,
+     QueueResync, SetFilter), ApplyUpdates / ApplyDeletions runs with ANY choices the code can
      make (map iteration orders, which command fails and how, how many retries, full/background/partial resyncs) and
      ANY change to the kernel by somebody else between two of Felix's operations (so the starting kernel, with stale
      temporary sets and foreign sets, is arbitrary).  fx = with/without the repair of fixes/C16-*.patch.
@@ -178,3 +180,16 @@ Print Assumptions c16_flags_refuted.
 Theorem c16_flags_repaired_example : fl_fixed_checks = true.
 Proof. exact fl_fixed_checks_true. Qed.
 Print Assumptions c16_flags_repaired_example.
+
+(* Histories with SetFilter, with the bookkeeping spelled out: A = every set asked for and not removed, F = the
+   filter.  In every reachable state the model is well-formed (in particular: the desired view is exactly the needed
+   part of the added sets, every added set keeps its member tracker while filtered out) and agrees with (A, F):
+   same filter, same added sets, and the tracker of every added set - needed or not - holds the members asked for.
+   `reach`/`reachF` used above are `exists A F, reachA/reachFA ... /\ D = eff A F`, so c16_any_history,
+   c16_swap_atomic, c16_view_accurate, c16_converges and c16_converges_after_apply all range over histories
+   containing SetFilter; a set that is not needed is not desired (it may be, and is, deleted), and after a
+   successful apply every NEEDED set is exact. *)
+Theorem c16_any_history_filter : forall fx s k A F,
+  reachA fx s k A F -> WF s /\ relA A F s.
+Proof. exact reachA_inv. Qed.
+Print Assumptions c16_any_history_filter.
